@@ -126,7 +126,7 @@ fn histories(part: usize, parts: usize) {
 fn variable_kinds_and_noop_arithmetic() {
     std::panic::set_hook(Box::new(|_| {}));
     #[derive(Clone, Copy, PartialEq, Debug)]
-    enum V { Begin, End, Count(bool, i32), Dimen(bool, i32), Skip(bool, i32), AdvCount(bool, i32), MulCount(bool, i32), AdvDimen(bool, i32), DivDimen(bool, i32), AdvSkip(bool, i32), MulSkip(bool, i32) }
+    enum V { Begin, End, Count(bool, i32), Dimen(bool, i32), Skip(bool, i32), AdvCount(bool, i32), MulCount(bool, i32), AdvDimen(bool, i32), DivDimen(bool, i32), AdvSkip(bool, i32), MulSkip(bool, i32), Toks(bool, char), Endline(bool, i32) }
     let g = |b: bool| if b { "\\global" } else { "" };
     let tex = |o: V| match o {
         V::Begin => "{".to_string(), V::End => "}".to_string(),
@@ -134,9 +134,11 @@ fn variable_kinds_and_noop_arithmetic() {
         V::AdvCount(gl, v) => format!("{}\\advance\\count1 by {v} ", g(gl)), V::MulCount(gl, v) => format!("{}\\multiply\\count1 by {v} ", g(gl)),
         V::AdvDimen(gl, v) => format!("{}\\advance\\dimen1 by {v}pt ", g(gl)), V::DivDimen(gl, v) => format!("{}\\divide\\dimen1 by {v} ", g(gl)),
         V::AdvSkip(gl, v) => format!("{}\\advance\\skip1 by {v}pt\\relax ", g(gl)), V::MulSkip(gl, v) => format!("{}\\multiply\\skip1 by {v} ", g(gl)),
+        // a token-list register and the integer parameter \\endlinechar (values that leave the single input line alone)
+        V::Toks(gl, c) => format!("{}\\toks1={{{c}}}", g(gl)), V::Endline(gl, v) => format!("{}\\endlinechar={v} ", g(gl)),
     };
     #[derive(Clone, PartialEq, Debug)]
-    struct S3 { c: i32, d: i32, s: i32 }
+    struct S3 { c: i32, d: i32, s: i32, t: char, e: i32 }
     fn set3(cur: &mut S3, saved: &mut Vec<S3>, global: bool, f: impl Fn(&mut S3)) { f(cur); if global { for s in saved.iter_mut() { f(s); } } }
     let apply3 = |cur: &mut S3, saved: &mut Vec<S3>, o: V| match o {
         V::Begin => saved.push(cur.clone()),
@@ -145,11 +147,13 @@ fn variable_kinds_and_noop_arithmetic() {
         V::AdvCount(gl, v) => { let n = cur.c + v; set3(cur, saved, gl, |s| s.c = n) } V::MulCount(gl, v) => { let n = cur.c * v; set3(cur, saved, gl, |s| s.c = n) }
         V::AdvDimen(gl, v) => { let n = cur.d + v; set3(cur, saved, gl, |s| s.d = n) } V::DivDimen(gl, v) => { let n = cur.d / v; set3(cur, saved, gl, |s| s.d = n) }
         V::AdvSkip(gl, v) => { let n = cur.s + v; set3(cur, saved, gl, |s| s.s = n) } V::MulSkip(gl, v) => { let n = cur.s * v; set3(cur, saved, gl, |s| s.s = n) }
+        V::Toks(gl, c) => set3(cur, saved, gl, |s| s.t = c), V::Endline(gl, v) => set3(cur, saved, gl, |s| s.e = v),
     };
     let ops = [V::Begin, V::End, V::Count(false, 5), V::Dimen(false, 5), V::Dimen(true, 6), V::Skip(false, 7), V::Skip(true, 8),
-        V::AdvCount(true, 0), V::MulCount(true, 1), V::AdvDimen(false, 2), V::AdvDimen(true, 0), V::DivDimen(true, 1), V::AdvSkip(false, 2), V::AdvSkip(true, 0), V::MulSkip(true, 1), V::AdvCount(false, 0)];
-    const READ3: &str = "[\\the\\count1,\\the\\dimen1,\\the\\skip1]";
-    let expect3 = |s: &S3| format!("[{},{}.0pt,{}.0pt]", s.c, s.d, s.s);
+        V::AdvCount(true, 0), V::MulCount(true, 1), V::AdvDimen(false, 2), V::AdvDimen(true, 0), V::DivDimen(true, 1), V::AdvSkip(false, 2), V::AdvSkip(true, 0), V::MulSkip(true, 1), V::AdvCount(false, 0),
+        V::Toks(false, 'b'), V::Toks(true, 'c'), V::Endline(false, -1), V::Endline(true, 32)];
+    const READ3: &str = "[\\the\\count1,\\the\\dimen1,\\the\\skip1,\\the\\toks1,\\the\\endlinechar]";
+    let expect3 = |s: &S3| format!("[{},{}.0pt,{}.0pt,{},{}]", s.c, s.d, s.s, s.t, s.e);
     let n = ops.len();
     let mut cases = 0u64;
     for len in 1..=5usize {
@@ -160,8 +164,8 @@ fn variable_kinds_and_noop_arithmetic() {
             let mut depth = 0i32;
             for op in &h { if *op == V::Begin { depth += 1 } if *op == V::End { depth -= 1; if depth < 0 { ok = false } } }
             if ok {
-                let (mut cur, mut saved) = (S3 { c: 1, d: 1, s: 1 }, vec![]);
-                let mut src = String::from("\\count1=1 \\dimen1=1pt \\skip1=1pt\\relax ");
+                let (mut cur, mut saved) = (S3 { c: 1, d: 1, s: 1, t: 'a', e: 13 }, vec![]);
+                let mut src = String::from("\\count1=1 \\dimen1=1pt \\skip1=1pt\\relax \\toks1={a}");
                 let mut want = String::new();
                 for op in &h { apply3(&mut cur, &mut saved, *op); src.push_str(&tex(*op)); src.push_str(READ3); want.push_str(&expect3(&cur)); }
                 while !saved.is_empty() { apply3(&mut cur, &mut saved, V::End); src.push('}'); src.push_str(READ3); want.push_str(&expect3(&cur)); }
